@@ -27,6 +27,7 @@ E1 = {
     'C07': 'harness.c07_json',
     'C08': 'harness.c08_errors',
     'C09': 'harness.c09_resolver',
+    'C12': 'harness.c12_io',
     'C13': 'harness.c13_invariance',
     'C14': 'harness.c14_node',
     'C15': 'harness.c15_seasoning',
